@@ -507,6 +507,9 @@ class Core:
                       detail="`if %s`: when the referenced id equals the id of the entry being expanded the recursive call is not reached" % (norm(shown.test) if shown is not None else "?"))
 
 
+OWN_MUTATION_ADEQUACY = True   # thorough() below mutates the anchored functions in memory (pathkit.run_mutants)
+
+
 def core(ctx):
     return Core(ctx).run()
 
@@ -641,6 +644,10 @@ def thorough(ctx):
     def extra_edge(fn):
         fn.body.append(ast.parse("self._resolve_into_result(result, ate.get_parent_id(), config)").body[0])
 
+    probe = _sink(ctx)
+    Core(probe, fs).run()
+    if probe.counts.get("certified_sccs"):
+        return thorough_certified(ctx, fs, core_with)
     mutants = [
         ("put_item_value: self-reference guard no longer returns", fs["put_item_value"], drop_self_ref),
         ("put_item_value: self-reference comparison inverted", fs["put_item_value"], invert_self_ref),
@@ -651,6 +658,106 @@ def thorough(ctx):
         ("put_item_value: if/else arms flipped", fs["put_item_value"], flip_ifs()),
         ("_resolve_into_result: locals renamed", fs["_resolve_into_result"], rename_locals()),
     ]
+    run_mutants(ctx, core_with(fs), mutants, benign)
+
+
+def thorough_certified(ctx, fs, core_with):
+    """the tree carries a visited-state certificate: break each of its parts in memory"""
+    probe = _sink(ctx)
+    c = Core(probe, fs)
+    g = c.graph()
+    import networkx as nx_
+    certs = []
+    for scc in (sorted(x) for x in nx_.strongly_connected_components(g) if len(x) > 1):
+        for cand in c.candidates(scc):
+            if c.verify(g, scc, cand) is None:
+                certs.append((scc, cand))
+    if not certs:
+        raise AnalysisError("certified SCC without a verifiable candidate")
+    scc, (fc, kind, s_txt, k_txt, G, cmp_) = certs[0]
+    test_txt = ast.unparse(G.test)
+
+    def is_grow(n):
+        return isinstance(n, ast.Expr) and isinstance(n.value, ast.Call) and isinstance(n.value.func, ast.Attribute) \
+            and n.value.func.attr in GROW and ast.unparse(n.value.func.value) == s_txt
+
+    def is_shrink(n):
+        return isinstance(n, ast.Expr) and isinstance(n.value, ast.Call) and isinstance(n.value.func, ast.Attribute) \
+            and n.value.func.attr in SHRINK and ast.unparse(n.value.func.value) == s_txt
+
+    def edit_blocks(fn, f):
+        done = 0
+        for n in ast.walk(fn):
+            for fld in ("body", "orelse", "finalbody"):
+                b = getattr(n, fld, None)
+                if isinstance(b, list) and b and isinstance(b[0], ast.stmt):
+                    done += f(b)
+        if not done:
+            raise LookupError
+
+    def drop_grow(fn):
+        def f(b):
+            k = [x for x in b if is_grow(x)]
+            for x in k:
+                b[b.index(x)] = ast.Pass()
+            return len(k)
+        edit_blocks(fn, f)
+
+    def guard_only_warns(fn):
+        for n in ast.walk(fn):
+            if isinstance(n, ast.If) and ast.unparse(n.test) == test_txt:
+                n.body = [x for x in n.body if not isinstance(x, (ast.Return, ast.Raise))] or [ast.Pass()]
+                n.orelse = [x for x in n.orelse if not isinstance(x, (ast.Return, ast.Raise))]
+                return
+        raise LookupError
+
+    def guard_removed(fn):
+        def f(b):
+            k = [x for x in b if isinstance(x, ast.If) and ast.unparse(x.test) == test_txt and not x.orelse]
+            for x in k:
+                b[b.index(x)] = ast.Pass()
+            return len(k)
+        edit_blocks(fn, f)
+
+    def recreate(fn):
+        fn.body.insert(0, ast.parse("%s = set()" % s_txt).body[0])
+
+    def shrink_early(fn):
+        def f(b):
+            k = [x for x in b if is_grow(x)]
+            for x in k:
+                b.insert(b.index(x) + 1, ast.parse("%s.discard(%s)" % (s_txt, k_txt)).body[0])
+            return len(k)
+        edit_blocks(fn, f)
+
+    def other_key(fn):
+        for n in ast.walk(fn):
+            if is_grow(n):
+                n.value.args = [ast.Constant(value=0)]
+                return
+        raise LookupError
+
+    def no_fresh(fn):
+        def f(b):
+            k = [x for x in b if isinstance(x, ast.Assign) and ast.unparse(x.targets[0]) == s_txt]
+            for x in k:
+                b[b.index(x)] = ast.Pass()
+            return len(k)
+        edit_blocks(fn, f)
+
+    mutants = [
+        ("%s: the key is never added" % fc.short, fc, drop_grow),
+        ("%s: a visited key only warns" % fc.short, fc, guard_only_warns),
+        ("%s: membership test removed" % fc.short, fc, guard_removed),
+        ("%s: key discarded right after insertion" % fc.short, fc, shrink_early),
+        ("%s: a constant is added instead of the key" % fc.short, fc, other_key),
+    ]
+    if kind == "attr":
+        mutants.append(("%s: state re-created on every call" % fc.short, fc, recreate))
+        for name, h in fs.items():
+            if name not in scc and any(isinstance(x, ast.Assign) and ast.unparse(x.targets[0]) == s_txt for x in ast.walk(h.node)) and name != "__init__":
+                mutants.append(("%s: state no longer created at the entry" % name, h, no_fresh))
+    benign = [("%s: locals renamed" % n, fs[n], rename_locals()) for n in scc] + [("%s: if/else arms flipped" % n, fs[n], flip_ifs()) for n in scc]
     run_mutants(ctx, core_with(fs), mutants, benign)
 
 
